@@ -43,7 +43,7 @@ def main():
         env = dict(os.environ, PYTHONPATH=wt, PYTHONDONTWRITEBYTECODE="1")
         env.pop("PYTREENET_VERIF", None)
         if "--no-tests" not in flags:
-            rc, o = sh("/venv/bin/python -m pytest -q -p no:cacheprovider -q -n 12 tests 2>&1 | tail -15", cwd=wt, env=env)
+            rc, o = sh("/venv/bin/python -m pytest -q -p no:cacheprovider -n 12 tests 2>&1 | tail -15", cwd=wt, env=env)
             failed = [l for l in o.splitlines() if l.startswith("FAILED") or l.startswith("ERROR")]
             out["tests_failed"] = failed
             out["tests_ok"] = all(KNOWN_FAIL in l for l in failed) and ("passed" in o)
